@@ -742,6 +742,195 @@ Proof.
   - destruct (tag_group7 tag); [discriminate |]. intros H. apply beq_eq in H. auto.
 Qed.
 
+(* ------------------------------------------------------------------------------------------ snap-confine accepts => ParseSecurityTag parses *)
+Lemma lang_dash_star_chars A s :
+  lang (dash_star A) s -> forallb (fun c => in_ranges c A || (c =? 45)) s = true.
+Proof.
+  unfold dash_star. revert s. apply star_ind'; [reflexivity |].
+  intros s1 s2 H1 _ IH. apply lang_cat_inv in H1 as (o & x & -> & Ho & Hx).
+  apply lang_cls_inv in Hx as (c & -> & Hc). apply lang_opt_inv in Ho as [-> | Ho].
+  - cbn. rewrite Hc. exact IH.
+  - apply lang_lit in Ho. subst o. cbn. rewrite Hc, orb_true_r. exact IH.
+Qed.
+
+Lemma lang_dashed_chars F A s :
+  lang (Cat (Cls F) (dash_star A)) s ->
+  forallb (fun c => in_ranges c F || in_ranges c A || (c =? 45)) s = true.
+Proof.
+  intros H. apply lang_cat_inv in H as (s1 & s2 & -> & H1 & H2).
+  apply lang_cls_inv in H1 as (c & -> & Hc). apply lang_dash_star_chars in H2.
+  cbn. rewrite Hc. cbn. eapply forallb_impl; [| exact H2]. intros x Hx. cbn in Hx.
+  apply orb_true_iff in Hx as [Hx | Hx]; rewrite Hx; rewrite ?orb_true_r; reflexivity.
+Qed.
+
+Ltac not_sep H :=
+  unfold not_dot_plus, not_dot;
+  match goal with |- context [?c =? 46] =>
+    destruct (N.eqb_spec c 46) as [-> |]; [vm_compute in H; discriminate |];
+    try (destruct (N.eqb_spec c 43) as [-> |]; [vm_compute in H; discriminate |]); reflexivity
+  end.
+
+Lemma valid_app_chars s : lang valid_app s -> forallb not_dot s = true.
+Proof.
+  intros H. apply (lang_dashed_chars _ _ s) in H. eapply forallb_impl; [| exact H].
+  intros c Hc. cbv beta in Hc. not_sep Hc.
+Qed.
+
+Lemma valid_hook_chars s : lang valid_hook s -> forallb not_dot s = true.
+Proof.
+  intros H. apply (lang_dashed_chars _ _ s) in H. eapply forallb_impl; [| exact H].
+  intros c Hc. cbv beta in Hc. not_sep Hc.
+Qed.
+
+Lemma re_name_chars s : lang re_name s -> forallb not_dot_plus s = true.
+Proof.
+  intros H. apply (lang_dashed_chars _ _ s) in H. eapply forallb_impl; [| exact H].
+  intros c Hc. cbv beta in Hc. not_sep Hc.
+Qed.
+
+Lemma re_g1_chars s : lang re_g1 s -> forallb not_dot_plus s = true.
+Proof.
+  unfold re_g1. intros H. apply lang_cat_inv in H as (s1 & s23 & -> & H1 & H23).
+  apply lang_cat_inv in H23 as (s2 & s3 & -> & H2 & H3).
+  apply lang_cls_inv in H1 as (c & -> & Hc). apply lang_dash_star_chars in H2.
+  rewrite !forallb_app. cbn [forallb].
+  assert (G1 : not_dot_plus c = true) by not_sep Hc.
+  assert (G2 : forallb not_dot_plus s2 = true).
+  { eapply forallb_impl; [| exact H2]. intros x Hx. cbv beta in Hx. not_sep Hx. }
+  assert (G3 : forallb not_dot_plus s3 = true).
+  { apply lang_opt_inv in H3 as [-> | H3]; [reflexivity |].
+    apply lang_cat_inv in H3 as (u & k & -> & Hu & Hk). apply lang_lit in Hu. subst u.
+    apply lang_rep_cls in Hk as [_ Hk]. cbn [app forallb]. change (not_dot_plus 95) with true. cbn [andb].
+    eapply forallb_impl; [| exact Hk]. intros x Hx. cbv beta in Hx. not_sep Hx. }
+  rewrite G1, G2, G3. reflexivity.
+Qed.
+
+Lemma not_dot_plus_dot s : forallb not_dot_plus s = true -> forallb not_dot s = true.
+Proof. apply forallb_impl. intros x H. unfold not_dot_plus in H. apply andb_true_iff in H as [H _]. exact H. Qed.
+
+Lemma split_first_app_stop c a b :
+  forallb (fun x => negb (x =? c)) a = true -> split_first c (a ++ c :: b) = Some (a, b).
+Proof.
+  induction a as [|x a IH]; intros H; cbn [app split_first].
+  - rewrite N.eqb_refl. reflexivity.
+  - cbn in H. apply andb_true_iff in H as [Hx Ha]. apply negb_true_iff in Hx. rewrite Hx, (IH Ha). reflexivity.
+Qed.
+
+Lemma split_first_none c a : forallb (fun x => negb (x =? c)) a = true -> split_first c a = None.
+Proof.
+  intros H. apply (split_first_none_forall c a (fun x => negb (x =? c))); [| exact H].
+  rewrite N.eqb_refl. reflexivity.
+Qed.
+
+Lemma no_plus_of s : forallb not_dot_plus s = true -> forallb (fun x => negb (x =? 43)) s = true.
+Proof. apply forallb_impl. intros x H. unfold not_dot_plus in H. apply andb_true_iff in H as [_ H]. exact H. Qed.
+
+(* ParseSecurityTag on a string of the app form / the hook form *)
+Lemma go_parse_app_form inst app :
+  forallb not_dot_plus inst = true -> forallb not_dot app = true ->
+  go_validate_instance inst = true -> go_validate_app app = true ->
+  go_parse_security_tag (lit_snap ++ [46] ++ inst ++ 46 :: app) = Some (inst, None, false, app).
+Proof.
+  intros Ci Ca Hi Ha. unfold go_parse_security_tag.
+  change 5%nat with (S (S 3)). rewrite splitn_SS.
+  change (split_first 46 (lit_snap ++ [46] ++ inst ++ 46 :: app)) with (Some (lit_snap, inst ++ 46 :: app)). cbv beta iota.
+  change 4%nat with (S (S 2)). rewrite splitn_SS.
+  rewrite (split_first_app_stop 46 inst app (not_dot_plus_dot _ Ci)). cbv beta iota.
+  change 3%nat with (S (S 1)). rewrite splitn_SS.
+  rewrite (split_first_none 46 app Ca). cbv beta iota.
+  cbn [List.length Nat.eqb orb negb]. rewrite beq_refl. cbn [negb].
+  rewrite (split_first_none 43 inst (no_plus_of _ Ci)). rewrite Hi. cbn [negb]. rewrite Ha. reflexivity.
+Qed.
+
+Lemma go_parse_hook_form inst comp hook :
+  forallb not_dot_plus inst = true ->
+  match comp with Some cn => forallb not_dot_plus cn = true /\ go_validate_snap cn = true | None => True end ->
+  forallb not_dot hook = true ->
+  go_validate_instance inst = true -> go_validate_hook hook = true ->
+  go_parse_security_tag (lit_snap ++ [46] ++ inst ++ (match comp with Some cn => 43 :: cn | None => [] end) ++
+                         [46;104;111;111;107;46] ++ hook) = Some (inst, comp, true, hook).
+Proof.
+  intros Ci Cc Ch Hi Hh. unfold go_parse_security_tag.
+  change 5%nat with (S (S 3)). rewrite splitn_SS.
+  set (p1 := inst ++ match comp with Some cn => 43 :: cn | None => [] end).
+  assert (Cp1 : forallb not_dot p1 = true).
+  { unfold p1. rewrite forallb_app, (not_dot_plus_dot _ Ci). destruct comp as [cn |]; [| reflexivity].
+    destruct Cc as [Cc _]. cbn [forallb]. rewrite (not_dot_plus_dot _ Cc). reflexivity. }
+  assert (E : lit_snap ++ [46] ++ inst ++ (match comp with Some cn => 43 :: cn | None => [] end) ++ [46;104;111;111;107;46] ++ hook =
+              lit_snap ++ 46 :: (p1 ++ 46 :: lit_hook ++ 46 :: hook)).
+  { unfold p1. rewrite <- !app_assoc. reflexivity. }
+  rewrite E.
+  change (split_first 46 (lit_snap ++ 46 :: p1 ++ 46 :: lit_hook ++ 46 :: hook))
+    with (Some (lit_snap, p1 ++ 46 :: lit_hook ++ 46 :: hook)). cbv beta iota.
+  change 4%nat with (S (S 2)). rewrite splitn_SS.
+  rewrite (split_first_app_stop 46 p1 _ Cp1). cbv beta iota.
+  change 3%nat with (S (S 1)). rewrite splitn_SS.
+  change (split_first 46 (lit_hook ++ 46 :: hook)) with (Some (lit_hook, hook)). cbv beta iota.
+  change 2%nat with (S (S 0)). rewrite splitn_SS.
+  rewrite (split_first_none 46 hook Ch). cbv beta iota.
+  cbn [List.length Nat.eqb orb negb]. rewrite beq_refl. cbn [negb].
+  unfold p1. destruct comp as [cn |].
+  - destruct Cc as [Cc Hc].
+    rewrite (split_first_app_stop 43 inst cn (no_plus_of _ Ci)). rewrite Hi. cbn [negb]. rewrite Hc. cbn [negb].
+    rewrite beq_refl. cbn [negb]. rewrite Hh. reflexivity.
+  - rewrite app_nil_r. rewrite (split_first_none 43 inst (no_plus_of _ Ci)). rewrite Hi. cbn [negb].
+    rewrite beq_refl. cbn [negb]. rewrite Hh. reflexivity.
+Qed.
+
+(* the missing direction: what snap-confine accepts for a valid instance (and a valid or absent component) is parsed by
+   the daemon as a tag of exactly that instance and component *)
+Theorem accepted_tags_parsed tag inst comp :
+  go_validate_instance inst = true -> comp_ok go_validate_snap comp = true ->
+  sc_security_tag_validate tag inst comp = true ->
+  exists h name, go_parse_security_tag tag = Some (inst, comp, h, name).
+Proof.
+  intros Hi Hc Hsc.
+  pose proof (sc_tag_instance_is_group1 tag inst comp Hsc) as [Hg1 Hg7].
+  unfold sc_security_tag_validate in Hsc.
+  destruct (sc_security_tag_max_len <? List.length tag)%nat; [discriminate |].
+  destruct (rmatch sc_tag_re tag) eqn:Erm; [| discriminate]. clear Hsc.
+  apply rmatch_lang in Erm. rewrite sc_tag_re_shape in Erm.
+  apply lang_cat_inv in Erm as (pre & body & -> & Hpre & Hbody). apply lang_lit in Hpre. subst pre.
+  apply lang_cat_inv in Hbody as (g1 & tail & -> & Lg1 & Ltail).
+  pose proof (re_g1_chars g1 Lg1) as Cg1.
+  apply lang_alt_inv in Ltail as [Lapp | Lhook].
+  - (* snap.<g1>.<app> *)
+    unfold re_app_alt in Lapp. apply lang_cat_inv in Lapp as (d & ap & -> & Hd & Lapp). apply lang_lit in Hd. subst d.
+    unfold tag_group1, tag_group7 in *. cbn [app skipn] in Hg1, Hg7.
+    rewrite (span_app_stop not_dot_plus g1 46 ap Cg1 eq_refl) in Hg1, Hg7. cbn [fst snd] in Hg1, Hg7. subst g1.
+    change (46 =? 43) with false in Hg7. cbv iota in Hg7.
+    destruct comp as [cn |]; [discriminate |].
+    exists false, ap. change ([115; 110; 97; 112; 46] ++ inst ++ [46] ++ ap) with (lit_snap ++ [46] ++ inst ++ 46 :: ap).
+    apply go_parse_app_form; try assumption.
+    + apply valid_app_chars. exact Lapp.
+    + unfold go_validate_app. apply rmatch_lang. exact Lapp.
+  - (* snap.<g1>[+<comp>].hook.<hook> *)
+    unfold re_hook_alt in Lhook. apply lang_cat_inv in Lhook as (oc & rest & -> & Hoc & Hrest).
+    apply lang_cat_inv in Hrest as (hl & hook & -> & Hhl & Lh). apply lang_lit in Hhl. subst hl.
+    assert (Ch : forallb not_dot hook = true) by (apply valid_hook_chars; exact Lh).
+    assert (Hh : go_validate_hook hook = true) by (unfold go_validate_hook; apply rmatch_lang; exact Lh).
+    unfold tag_group1, tag_group7 in *. cbn [app skipn] in Hg1, Hg7.
+    apply lang_opt_inv in Hoc as [-> | Hoc].
+    + cbn [app] in Hg1, Hg7.
+      rewrite (span_app_stop not_dot_plus g1 46 _ Cg1 eq_refl) in Hg1, Hg7. cbn [fst snd] in Hg1, Hg7. subst g1.
+      change (46 =? 43) with false in Hg7. cbv iota in Hg7.
+      destruct comp as [cn |]; [discriminate |].
+      exists true, hook.
+      apply (go_parse_hook_form inst None hook); auto.
+    + apply lang_cat_inv in Hoc as (pl & cn & -> & Hpl & Lcn). apply lang_lit in Hpl. subst pl.
+      pose proof (re_name_chars cn Lcn) as Ccn.
+      cbn [app] in Hg1, Hg7.
+      rewrite (span_app_stop not_dot_plus g1 43 _ Cg1 eq_refl) in Hg1, Hg7. cbn [fst snd] in Hg1, Hg7. subst g1.
+      change (43 =? 43) with true in Hg7. cbv iota in Hg7.
+      rewrite (span_app_stop not_dot cn 46 _ (not_dot_plus_dot _ Ccn) eq_refl) in Hg7. cbn [fst] in Hg7.
+      destruct comp as [cn' |]; [| discriminate]. injection Hg7 as <-.
+      exists true, hook.
+      replace ([115; 110; 97; 112; 46] ++ inst ++ ([43] ++ cn) ++ [46; 104; 111; 111; 107; 46] ++ hook)
+        with (lit_snap ++ [46] ++ inst ++ (match Some cn with Some c0 => 43 :: c0 | None => [] end) ++ [46;104;111;111;107;46] ++ hook)
+        by reflexivity.
+      apply (go_parse_hook_form inst (Some cn) hook); auto.
+Qed.
+
 (* ------------------------------------------------------------------------------------------ the statements of props/C24.v *)
 Theorem snap_name_agree : forall s : bytes,
   go_validate_snap s = valid_snap_name s /\ sc_snap_name_validate s = valid_snap_name s /\
@@ -768,13 +957,19 @@ Theorem generated_tags_overlong_refuted :
     sc_security_tag_validate (model_tag inst None false app) inst None = false.
 Proof. exists [97;98], long_app. exact overlong_generated_tag_rejected. Qed.
 
-Theorem tag_iff_partial : forall (tag inst : bytes) (comp : option bytes),
-  (length tag <= 256)%nat ->
-  ((exists h name, go_parse_security_tag tag = Some (inst, comp, h, name)) -> sc_security_tag_validate tag inst comp = true) /\
-  (sc_security_tag_validate tag inst comp = true ->
-     tag_group1 tag = inst /\ match comp with Some cn => tag_group7 tag = Some cn | None => tag_group7 tag = None end).
+Theorem tag_iff : forall (tag inst : bytes) (comp : option bytes),
+  (List.length tag <= 256)%nat ->
+  go_validate_instance inst = true -> comp_ok go_validate_snap comp = true ->
+  (sc_security_tag_validate tag inst comp = true <->
+   exists h name, go_parse_security_tag tag = Some (inst, comp, h, name)).
 Proof.
-  intros tag inst comp Hl. split.
+  intros tag inst comp Hl Hi Hc. split.
+  - apply accepted_tags_parsed; assumption.
   - intros (h & name & H). eapply parsed_tags_accepted; eassumption.
-  - apply sc_tag_instance_is_group1.
 Qed.
+
+(* snap-confine only accepts a tag for the instance and component literally written in it (no validity hypothesis) *)
+Theorem tag_names_instance : forall (tag inst : bytes) (comp : option bytes),
+  sc_security_tag_validate tag inst comp = true ->
+  tag_group1 tag = inst /\ match comp with Some cn => tag_group7 tag = Some cn | None => tag_group7 tag = None end.
+Proof. exact sc_tag_instance_is_group1. Qed.
